@@ -100,3 +100,26 @@ void h_accum_to(void) {
   __CPROVER_assert((u128)res[k] == TOQ(s, &p, k), "accum_to_q120b: res[k] == s0 + (s1 mod 2^h)*P1 + (s1>>h)*P2 without 64-bit wrap");
   VACUITY_CANARY();
 }
+
+// ---- a*a product (reference): no 64-bit wrap for every ell <= 10000 (C04 range invariant; no ghost sum: the step is inline
+// and the functional statement would need a repository hook).  acc1 collects the H low bits of each product, acc2 the 64-H
+// high bits; the result acc1 + acc2*h_pow_red stays below 2^64.  H and h_pow_red < q come from the real constructor (S5).
+#ifndef BAA_H
+#define BAA_H 47
+#endif
+void q120_vec_mat1col_product_baa_ref(q120_mat1col_product_baa_precomp* precomp, const uint64_t ell, q120b* const res, const q120a* const x, const q120a* const y);
+#define BAA_LO ((((uint64_t)1) << BAA_H) - 1)
+#define BAA_HI ((((uint64_t)1) << (64 - BAA_H)) - 1)
+void baa_ref__c(q120_mat1col_product_baa_precomp* precomp, const uint64_t ell, q120b* const res, const q120a* const x, const q120a* const y)
+__CPROVER_requires(ell <= MAX_ELL && GK < 4)
+__CPROVER_requires(__CPROVER_is_fresh(precomp, sizeof(*precomp)) && precomp->h == BAA_H && precomp->h_pow_red[0] < Q1 && precomp->h_pow_red[1] < Q2 && precomp->h_pow_red[2] < Q3 && precomp->h_pow_red[3] < Q4)
+__CPROVER_requires(__CPROVER_is_fresh(res, 32) && __CPROVER_is_fresh(x, ell * 32) && __CPROVER_is_fresh(y, ell * 32))
+__CPROVER_assigns(__CPROVER_object_upto(res, 32))
+__CPROVER_ensures((u128)((const uint64_t*)res)[GK] <= (u128)MAX_ELL * BAA_LO + (u128)MAX_ELL * BAA_HI * (u128)Q1) /*@baa_result_below_2_64_no_wrap:C04*/
+;
+void h_baa_ref(void) {
+  q120_mat1col_product_baa_precomp* p; uint64_t ell; q120b* r; const q120a *x, *y;
+  GK = nondet_u64();
+  q120_vec_mat1col_product_baa_ref(p, ell, r, x, y);
+  VACUITY_CANARY();
+}
